@@ -173,7 +173,7 @@ func c11Short(c *fw.Ctx, i int) {
 		if fl > 20000 {
 			fl = 20000
 		}
-		if mtu >= 1000 && r.Chance(1, 40) {
+		if (mtu >= 1000 && r.Chance(1, 40)) || (mtu >= 64 && r.Chance(1, 300)) || r.Chance(1, 8000) {
 			fl = r.Pick(65535, 65536, 65537, 70000, 131073) // frames beyond 64 KiB are ordinary key frames
 		}
 		if !c11Frame(c, p, pidOn, k, mtu, r.Bytes(fl), k == 0 || k == 127 || k == 128) {
